@@ -194,12 +194,14 @@ class Lib:
     # ---- names
     def global_name(self, ex, name, st):
         if name in ("UndirectedGraph", "Independencies", "IndependenceAssertion", "DAG", "PDAG", "BayesianNetwork", "Graph",
-                    "DiGraph", "MarkovNetwork", "DynamicNode", "DynamicBayesianNetwork"):
+                    "DiGraph", "MarkovNetwork", "DynamicNode", "DynamicBayesianNetwork", "StructureScore"):
             return ClassV(name)
         if name == "logger":
             return ModuleV("logger")
         if name in ("config", "tqdm"):
             return ModuleV(name)
+        if name == "deque":
+            return ModuleV("collections.deque")
         if name in ("permutations", "combinations", "product", "chain"):
             return ModuleV("itertools." + name)
         if name in ("_variable_or_iterable_to_set", "_powerset"):
@@ -457,6 +459,12 @@ class Lib:
             if not g.fields["@directed"]:
                 raise Unsupported("has_path on undirected graph")
             return Scalar(self.theory(ex).path(g.fields["@E"])(u, v))
+        if name in ("nx.is_directed_acyclic_graph", "networkx.is_directed_acyclic_graph"):
+            g = args[0]
+            if not g.fields["@directed"]:
+                return Scalar(z3.BoolVal(False))
+            ex.assumed.add("nx.is_directed_acyclic_graph(G) <=> no edge (a, b) with a path b ~> a (Path reflexive, so self loops count)")
+            return Scalar(self.theory(ex).acyclic(g.fields["@E"]))
         if name in ("nx.dfs_preorder_nodes", "nx.descendants"):
             g, u = args[0], z3_of(args[1])
             ex.oblige(st, N_(g, u), f"call.{name}.node-present")
@@ -465,6 +473,15 @@ class Lib:
             if name.endswith("descendants"):
                 return Coll("set", Atom, z3.Lambda([x], z3.And(P(u, x), x != u)))
             return Coll("iter", Atom, z3.Lambda([x], P(u, x)), nodup=True)
+        if name == "collections.deque" and not args and set(kwargs) == {"maxlen"}:
+            n = kwargs["maxlen"]
+            if not (isinstance(n, Scalar) and n.z.sort() == I):
+                raise Unsupported("deque(maxlen=...) with a non-integer bound")
+            ex.oblige(st, n.z >= 0, "call.deque.maxlen-nonnegative")   # ValueError otherwise
+            d = Coll("list", None, None, items=[])
+            d.maxlen = n.z
+            ex.assumed.add("collections.deque(maxlen=n): append keeps a subset of old + {x}; nothing at all when n == 0")
+            return d
         if name.startswith("logger."):
             return NONE
         if name == "tqdm":
